@@ -120,6 +120,7 @@ class G:
     self.funcs = []       # dicts: name, params[(name, kind, default?)], ret kind
     self.counter = 0
     self.needs_typing = set()
+    self.annotated = set()
 
   # ---- small helpers
   def i(self, lo, hi):
@@ -379,8 +380,11 @@ class G:
   # ---- statements (each returns list of lines; mutates env)
   def assign(self, env, indent=""):
     kind = self.some_kind(1)
-    if self.chance(25) and env:
-      name = self.pick(list(env))
+    free = [n for n in env if n not in self.annotated]
+    if self.chance(25) and free:
+      # (annotated names are never rebound: the program would contradict its
+      #  own annotation)
+      name = self.pick(free)
     else:
       name = self.fresh("v")
     src = self.expr(env, kind, 2)
@@ -392,6 +396,7 @@ class G:
         self.needs_typing.add("Union")
       line = "%s: %s = %s" % (name, a, src)
       self.features.add("annotated-var")
+      self.annotated.add(name)
     env[name] = kind
     return [indent + line]
 
@@ -503,6 +508,7 @@ class G:
           self.needs_typing.add("Union")
         s += ": " + a
         self.features.add("annotated-param")
+        self.annotated.add(pn)
       if has_default:
         s += ("=" if ":" not in s else " = ") + self.expr({}, pk, 0)
       lines_params.append(s)
